@@ -23,7 +23,9 @@ RULE = ("Hypothesis-generated configurations: A in {dense MatMul, Identity, diag
         "solver options run on each problem; oracle: harness-evaluated objective gap F(x_out)-F* <= 1e-3*max(F(x0)-F*, "
         "|F*|, 1e-9) with F* from a primal/dual-certified dense reference, box feasibility 1e-4, ValueError for "
         "CG+proxg and GradientMethod+G, no other exception, y/z/captured arrays unchanged. non-trivial: G given, or "
-        "lamda>0 with z, or proxg given. distinct = configuration signature.")
+        "lamda>0 with z, or proxg given. distinct = configuration signature. In 4 of 7 cases a SECOND problem (lamda raised by "
+        "2 / lowered / equal, new observation) is then solved with the very same operator, prox and array objects "
+        "(history: nothing cached on shared objects may leak into a later solve).")
 ASSUMPTIONS = [
     "conditioning is controlled by construction (singular values of A in [1/4,1] (quick) or [1/30,1] (thorough class), ||G|| <= 2) so that "
     "the iteration budgets below suffice: CG n+2, GradientMethod 800, PDHG 3000, ADMM 500 (x10 CG each)",
@@ -159,20 +161,37 @@ def step_kwargs(case, P, solver):
 
 
 def check_case(case):
-    import sigpy as sp
     warnings.simplefilter("ignore")
     r = R()
     P = build_problem(case)
-    prob = P["prob"]
-    ref = prob.solve()
     r.label("A:" + case["A"], "G:" + str(case["G"]), "prox:" + str(case["proxg"]), "lamda>0" if case["lamda"] else "lamda=0",
             "z" if case["z"] else "no-z", "given" if case["given"] else "defaulted", "cplx" if case["cplx"] else "real")
     r.sig = "|".join("%s=%s" % (k, case[k]) for k in sorted(case) if k not in ("part", "prelude", "seed"))
     r.nontrivial = case["G"] is not None or (case["lamda"] > 0 and case["z"]) or case["proxg"] is not None
-    if not ref["certified"]:
-        r.label("reference-uncertified")
+    ok = _solve_all(r, case, P, "")
+    if not ok:
         r.nontrivial = False
         return r
+    if case.get("reuse"):
+        # the SAME operator / prox / array objects are used for a second, different problem (another lamda and
+        # another observation): nothing a previous solve left behind on them may leak into this one
+        rng = np.random.default_rng(case["seed"] + 1)
+        lam2 = {"up": P["lamda"] + 2.0, "down": 0.0 if P["lamda"] else 0.25, "same": P["lamda"]}[case["reuse"]]
+        y2 = (rng.standard_normal(P["y"].shape) + (1j * rng.standard_normal(P["y"].shape) if np.iscomplexobj(P["y"]) else 0)).astype(P["dt"])
+        P2 = dict(P, y=y2, lamda=lam2, z=P["z"] if lam2 > 0 else None)
+        P2["prob"] = Problem(P["Am"], y2, lam2, P2["z"], P["Gm"], case["proxg"], case["mu"])
+        r.label("reuse:" + case["reuse"])
+        _solve_all(r, case, P2, ":reused-objects")
+    return r
+
+
+def _solve_all(r, case, P, tag):
+    import sigpy as sp
+    prob = P["prob"]
+    ref = prob.solve()
+    if not ref["certified"]:
+        r.label("reference-uncertified")
+        return False
     Fstar = ref["hi"]
     n = P["n"]
     x_start = np.zeros((n, 1), P["dt"]) if P["x0"] is None else P["x0"]
@@ -204,10 +223,10 @@ def check_case(case):
             if must_raise:
                 r.label("raises-as-documented")
                 continue
-            r.fail("raises:%s:ValueError:%s" % (eff, _cfg(case)), "solver option %s: ValueError: %s" % (name, e))
+            r.fail("raises:%s:ValueError:%s%s" % (eff, _cfg(case), tag), "solver option %s: ValueError: %s" % (name, e))
             continue
         except Exception as e:
-            r.fail("raises:%s:%s:%s" % (eff, type(e).__name__, _cfg(case)), "solver option %s: %s: %s" % (name, type(e).__name__, e))
+            r.fail("raises:%s:%s:%s%s" % (eff, type(e).__name__, _cfg(case), tag), "solver option %s: %s: %s" % (name, type(e).__name__, e))
             continue
         finally:
             np.random.set_state(state)
@@ -227,7 +246,7 @@ def check_case(case):
             r.fail("solution-not-in-callers-array:%s" % name, "run() returned a different array than the x passed in")
         x = np.asarray(x)
         if x.shape != (n, 1) or not np.all(np.isfinite(x)):
-            r.fail("bad-output:%s" % name, "shape %s / non-finite" % (x.shape,))
+            r.fail("bad-output:%s%s" % (name, tag), "shape %s / non-finite" % (x.shape,))
             continue
         Fx = prob.F(x)
         results[name] = Fx
@@ -235,16 +254,16 @@ def check_case(case):
             v = (prob.G @ x.ravel())
             viol = float(np.max(np.maximum(np.abs(v.real) - case["mu"], 0)))
             if viol > 1e-4:
-                r.fail("infeasible:%s:%s" % (eff, _cfg(case)), "G x leaves the box by %.3e" % viol)
+                r.fail("infeasible:%s:%s%s" % (eff, _cfg(case), tag), "G x leaves the box by %.3e" % viol)
                 continue
             # objective without the indicator for a slightly infeasible point
             Fx = prob.f_smooth(x.ravel())
         gap = Fx - Fstar
         if not gap <= slack:
-            r.fail("not-the-minimiser:%s:%s:prox=%s" % (eff, _cfg(case), case["proxg"]),
+            r.fail("not-the-minimiser:%s:%s:prox=%s%s" % (eff, _cfg(case), case["proxg"], tag),
                    "F(x_out) = %.9g, F* = %.9g (gap %.3e > %.3e); solver option %s; objectives of the other solvers so far: %s"
                    % (Fx, Fstar, gap, slack, name, {k: round(v, 9) for k, v in results.items()}))
-    return r
+    return True
 
 
 def _cfg(case):
@@ -275,6 +294,7 @@ def st_case(draw):
         "stepc": draw(st.sampled_from([1.0, 0.9, 0.5])), "sigma": draw(st.sampled_from([1.0, 0.5, 2.0])),
         "rho": draw(st.sampled_from([1, 0.5, 2.0])), "accelerate": draw(st.booleans()),
         "smin": 1 / 30.0 if thorough_cond and draw(st.booleans()) else 0.25,
+        "reuse": draw(st.sampled_from([None, None, None, "up", "up", "down", "same"])),
     }
     if c["proxg"] == "box":
         c["cplx"] = False
